@@ -1803,11 +1803,10 @@ class Backend:
         dest_path = Path(prefix, outdir, Path(fname).name) if outdir else Path(prefix, fname)
         if bindir in dest_path.parents or sbindir in dest_path.parents:
             return 'runtime'
-        elif libdir in dest_path.parents:
-            if dest_path.suffix in {'.a', '.pc'}:
-                return 'devel'
-            elif dest_path.suffix in {'.so', '.dll'}:
-                return 'runtime'
+        elif libdir in dest_path.parents and dest_path.suffix in {'.a', '.pc'}:
+            return 'devel'
+        elif libdir in dest_path.parents and dest_path.suffix in {'.so', '.dll'}:
+            return 'runtime'
         elif incdir in dest_path.parents:
             return 'devel'
         elif localedir in dest_path.parents:
